@@ -14,7 +14,7 @@ use crate::{
 use std::collections::HashSet;
 use swc_common::{SyntaxContext, DUMMY_SP};
 use swc_ecma_ast::{Stmt::Decl as DeclEnumOption, *};
-use swc_ecma_visit::{Visit, VisitMut, VisitMutWith};
+use swc_ecma_visit::{Visit, VisitMut, VisitMutWith, VisitWith};
 
 pub struct BlockTransformVisitor<'a> {
     pub transform_status: &'a mut TransformStatus,
@@ -77,6 +77,17 @@ impl VisitMut for BlockTransformVisitor<'_> {
     }
 
     fn visit_mut_program(&mut self, node: &mut Program) {
+        // parameter lists and catch clauses that are not inside any block (top level functions,
+        // arrows, classes...) are not seen by the per block check of visit_mut_block_stmt
+        let mut finder = ReservedNameFinder {
+            prefix: get_dd_local_variable_prefix(&self.config.local_var_prefix),
+            found: false,
+        };
+        node.visit_with(&mut finder);
+        if finder.found {
+            return self.cancel_visit("Variable name duplicated");
+        }
+
         node.visit_mut_children_with(self);
 
         if self.transform_status.status == Status::Modified {
@@ -104,6 +115,21 @@ impl VisitMut for BlockTransformVisitor<'_> {
                     }
                 }
             }
+        }
+    }
+}
+
+struct ReservedNameFinder {
+    prefix: String,
+    found: bool,
+}
+
+impl Visit for ReservedNameFinder {
+    // only binding positions (parameters, catch clauses, declarations, patterns) matter here:
+    // references are checked block by block
+    fn visit_binding_ident(&mut self, ident: &BindingIdent) {
+        if ident.id.sym.starts_with(&self.prefix) {
+            self.found = true;
         }
     }
 }
